@@ -28,13 +28,22 @@ WithoutIdx(s, i) == SubSeq(s, 1, i - 1) \o SubSeq(s, i + 1, Len(s))
 KeyOf(e) == <<e.c, e.p>>
 ExactlyOnce(seq, S) == Len(seq) = Cardinality(S) /\ Range(seq) = S
 
-Destroys(dks, dvs, K, V) ==
+(* NULL (0) is a value like any other for the container: an entry whose value is NULL is displaced like the rest, and the  *)
+(* value destructor is called for it too, with NULL.  V = the displaced non-NULL value objects (each destroyed exactly     *)
+(* once, ever); the number of displaced NULL values follows from the entries before and after (az = 1 when the step itself   *)
+(* stores a NULL value).                                                                                                  *)
+ZeroCount(s) == Cardinality({i \in 1..Len(s) : s[i].v = 0})
+Destroys5(dks, dvs, K, V0, az) ==
+    LET V == V0 \ {0}
+        zc == ZeroCount(order) + az - ZeroCount(order')
+    IN
     /\ ExactlyOnce(dks, IF dk THEN K ELSE {})
-    /\ ExactlyOnce(dvs, IF dv THEN V ELSE {})
+    /\ IF dv THEN ExactlyOnce(SelectSeq(dvs, LAMBDA x : x # 0), V) /\ Len(dvs) = Cardinality(V) + zc ELSE dvs = <<>>
     /\ (dv => V \cap vdead = {})
     /\ kd' = [i \in DOMAIN kd |-> kd[i] + (IF dk /\ \E k \in K : KIdx(k[1], k[2]) = i THEN 1 ELSE 0)]
-    /\ nvd' = nvd + (IF dv THEN Cardinality(V) ELSE 0)
+    /\ nvd' = nvd + (IF dv THEN Cardinality(V) + zc ELSE 0)
     /\ vdead' = IF dv THEN vdead \cup V ELSE vdead
+Destroys(dks, dvs, K, V0) == Destroys5(dks, dvs, K, V0, 0)
 
 CInit(pol, m, k, v) == /\ policy = pol /\ max = m /\ order = <<>> /\ kd = [i \in 1..(NC * NP) |-> 0]
                        /\ nvd = 0 /\ vdead = {} /\ dk = k /\ dv = v
@@ -44,7 +53,7 @@ VictimIdx(s) == IF policy = "lifo" THEN Len(s) - 1 ELSE 1
 
 Put(c, p, v, ok, dks, dvs) ==
     /\ ok
-    /\ dv => (v # 0 /\ v \notin vdead /\ \A i \in 1..Len(order) : order[i].v # v)   \* as in LinkedHash!Put
+    /\ dv => (v = 0 \/ (v \notin vdead /\ \A i \in 1..Len(order) : order[i].v # v))   \* as in LinkedHash!Put
     /\ LET i == IdxOf(c)
            new == [c |-> c, p |-> p, v |-> v]
            K1 == IF i # 0 /\ order[i].p # p THEN {KeyOf(order[i])} ELSE {}       \* replaced entry
@@ -53,9 +62,9 @@ Put(c, p, v, ok, dks, dvs) ==
        IN IF Len(mid) > max
           THEN LET vi == VictimIdx(mid) IN
                /\ order' = WithoutIdx(mid, vi)
-               /\ Destroys(dks, dvs, K1 \cup {KeyOf(mid[vi])}, V1 \cup {mid[vi].v})
+               /\ Destroys5(dks, dvs, K1 \cup {KeyOf(mid[vi])}, V1 \cup {mid[vi].v}, IF v = 0 THEN 1 ELSE 0)
           ELSE /\ order' = mid
-               /\ Destroys(dks, dvs, K1, V1)
+               /\ Destroys5(dks, dvs, K1, V1, IF v = 0 THEN 1 ELSE 0)
     /\ UNCHANGED <<policy, max, dk, dv>>
 
 (* find: a lookup counts as use for lru only; v = 0 stands for "not found" *)
